@@ -71,6 +71,22 @@ func RunOne(t *testing.T, spec RunSpec) (res RunResult) {
 			res.Infra = "panic: " + s
 		}
 	}()
+	var lin *linHistory
+	defer func() {
+		// secondary C08 oracle, outside the bubble (it needs real goroutines and a real timer)
+		if lin == nil || res.Stats == nil {
+			return
+		}
+		switch r, detail := checkLin(lin, 20*time.Second); r {
+		case "ok":
+			res.Stats.probe("porcupine_history_linearizable")
+		case "unknown":
+			res.Stats.probe("porcupine_timed_out_inconclusive")
+		case "illegal":
+			res.Violations = append(res.Violations, Violation{Property: "C08", Class: "C08/history-not-linearizable", Seq: 1 << 40, Step: res.Steps, VTimeMs: res.VTimeMs,
+				Msg: "the Apply history is not linearizable against a counter of applied commands: " + detail, Facts: map[string]string{}})
+		}
+	}()
 	synctest.Test(t, func(t *testing.T) {
 		var ch *simrt.Chooser
 		seed := runSeed(spec)
@@ -105,6 +121,9 @@ func RunOne(t *testing.T, spec RunSpec) (res RunResult) {
 		w.runLoop()
 		w.finish()
 
+		if cfg.Profile == "C08" && len(w.viol) == 0 {
+			lin = w.collectLinHistory()
+		}
 		res.Config = cfg
 		res.Violations = w.viol
 		res.Steps = sim.Steps
